@@ -1,0 +1,10 @@
+//go:build verif
+
+package light
+
+import "github.com/tendermint/tendermint/types"
+
+// VerifLatestTrusted exposes the client's cached highest trusted light block (read-only).
+func (c *Client) VerifLatestTrusted() *types.LightBlock {
+	return c.latestTrustedBlock
+}
